@@ -235,15 +235,34 @@ impl Job for SortScript {
             }
             Sh(std::cell::RefCell::new((keys, 1u32 << 20, 0u32)))
         };
+        let done_hs_cell = Sh(Cell::new(0u64));
         let cancelled = pool.install(|| {
             let cc = &cmp_count;
             let adv = &adv;
+            let done_hs = &done_hs_cell;
             nucleo::verif_facade::par_quicksort(
                 &mut v,
                 |a: &(u32, u32), b: &(u32, u32)| {
                     cc.get().set(cc.get().get() + 1);
                     if adversarial {
                         let mut st = adv.get().borrow_mut();
+                        // once the sort has given up on quicksort (heapsort fallback entered), the
+                        // adversary decides every still-undecided key at random (above all decided
+                        // ones, which keeps its earlier answers consistent): the fallback then
+                        // works on ordinary unordered content instead of adversary-shaped content
+                        let hs = sim::with(|s| s.probes.get("sort.heapsort").copied().unwrap_or(0));
+                        if hs > done_hs.get().get() {
+                            done_hs.get().set(hs);
+                            let mut r = SplitMix::derive(self.data_seed, 31 + hs);
+                            let base = st.1;
+                            let n = st.0.len() as u64;
+                            for k in st.0.iter_mut() {
+                                if *k == u32::MAX {
+                                    *k = base + r.below(4 * n + 16) as u32;
+                                }
+                            }
+                            st.1 = base + 4 * n as u32 + 16;
+                        }
                         let (x, y) = (a.1 as usize, b.1 as usize);
                         if st.0[x] == u32::MAX && st.0[y] == u32::MAX {
                             let freeze = if st.2 as usize == x { x } else { y };
